@@ -832,9 +832,34 @@ def c17_runs(tier, rep, bins):
     return adjudicate(rep, "C17", bins, "release", executed), cases
 
 
+def probe_lemma(rep):
+    """TLAPS: the design lemma of the one-sided probe (spec/proofs/ProbeLemma.tla), for all integers."""
+    import re
+    import shutil
+    import subprocess
+    from .common import VERIF
+    d = os.path.join(VERIF, "spec", "proofs")
+    try:
+        p = subprocess.run(["timeout", "300", "tlapm", "--threads", "8", "--cleanfp", "ProbeLemma.tla"], cwd=d,
+                           stdout=subprocess.PIPE, stderr=subprocess.STDOUT, text=True)
+    except OSError as e:
+        rep.info("tlapm not runnable: %s" % e)
+        return
+    shutil.rmtree(os.path.join(d, ".tlacache"), ignore_errors=True)
+    m = re.search(r"All (\d+) obligations? proved", p.stdout)
+    if m:
+        rep.coverage["probe_lemma_proof"] = {"tool": "tlapm (TLAPS, SMT back end)", "module": "spec/proofs/ProbeLemma.tla",
+                                             "theorems": ["ProbeRight", "ProbeLeft", "WindowConvex", "RequestRestores"],
+                                             "obligations": int(m.group(1)), "discharged": int(m.group(1))}
+    else:
+        rep.info("tlapm did not discharge ProbeLemma.tla: %s" % p.stdout[-300:])
+
+
 def c06(tier):
     rep = Report("C06", "model_checking", tier)
     bins = build_harness(("release", "debug"))
+    if not os.environ.get("VERIF_CASES"):
+        probe_lemma(rep)
     judged = c06_runs(tier, rep, bins)
     rep.coverage["rule"] = ("cases: tape roamers (far moves of up to 700 cells per step, movers, scans over prepared "
                             "runs, revisits of old cells after growth in the other direction, loop bodies touching "
